@@ -173,8 +173,9 @@ theorem mathSection_step_d (T : PTables) (fuel : Nat) (t : Tok) (rest : Buf) (st
     rw [hc] at hamp ⊢
     have : c ≠ '&' := fun e => hamp (by rw [e])
     simp [dispStops, this]
+  have hv : isVerb t = false := by simp [isVerb, hk]
   rw [expandMathSection.eq_2, hsk]
-  simp only [hk, hstop, hi, hs, reduceCtorEq, beq_iff_eq, Bool.false_eq_true, if_false]
+  simp only [hk, hv, hstop, hi, hs, reduceCtorEq, beq_iff_eq, Bool.false_eq_true, if_false]
   show M.bind' M.get _ st = _
   simp only [M.bind', M.get]
   have hm : isMathTok t = false := by simp [isMathTok, hk]
@@ -219,8 +220,10 @@ theorem mathSection_close (T : PTables) (st : PState) (fuel : Nat) (start : Nat)
     rw [hd.txt]; decide
   have hp : (d2.kind == Kind.par) = false := by
     rcases hd.kind with hk | hk | hk <;> simp [hk]
+  have hv : isVerb d2 = false := by
+    rcases hd.kind with hk | hk | hk <;> simp [isVerb, hk]
   rw [expandMathSection.eq_2, hsk]
-  simp only [hp, hstop, Bool.false_eq_true, if_false, if_true]
+  simp only [hp, hv, hstop, Bool.false_eq_true, if_false, if_true]
   rw [finFilter_math out ho]
   rfl
 
@@ -341,12 +344,12 @@ theorem displayLoop_simple (T : PTables) (st : PState) (fuel : Nat) (buf : Buf) 
     (ls : LangSettings) (r0 : Str) (el : Tok)
     (hsec : expandMathSection T fuel buf start dispStops (some envName) [] st
       = .ok ({ out := mb.map (mathTokOf st), term := some e, buf := rest }, st))
-    (he1 : txtIs e "&" = false) (he2 : txtIs e "\\\\" = false)
+    (he1 : txtIs e "&" = false) (he2 : txtIs e "\\\\" = false) (he3 : (e.kind == Kind.par) = false)
     (hmb : ∀ t ∈ mb, BodyTok T t) (hel : mb.find? (isElemSrc T st.mathOperators) = some el)
     (hrot : rotOf st (curSettings st) = some rot) (hls : settingsOf T (curSettings st) = some ls)
     (hr : (rotL rot.disp).head? = some r0) :
     displayLoop T (fuel + 1) buf start envName true true out0 st
-      = .ok ((out0 ++ partOut r0 el.pos (firstPos mb) (punctChar T (bodyTxt mb)), rest),
+      = .ok ((out0 ++ partOut r0 el.pos (firstPos mb) (punctChar T (bodyTxt mb)), rest, []),
              setRot st { rot with disp := rotL rot.disp }) := by
   have hne : mb ≠ [] := by
     intro e0; rw [e0] at hel; simp at hel
@@ -379,7 +382,7 @@ theorem displayLoop_simple (T : PTables) (st : PState) (fuel : Nat) (buf : Buf) 
   refine (M.bind_ok _ _ _ _ _ (rfl : M.get st = _)).trans ?_
   simp only [hrot, hls, hrs]
   refine (M.bind_ok _ _ _ _ _ (rfl : M.modify _ _ = _)).trans ?_
-  simp only [he1, he2, Bool.false_eq_true, if_false]
+  simp only [he1, he2, he3, Bool.false_eq_true, if_false]
   show Outcome.ok _ = _
   rw [hrepls, hout]
   rfl
@@ -389,7 +392,7 @@ theorem expandDisplayMath_simple (T : PTables) (st : PState) (fuel : Nat) (buf :
     (ls : LangSettings) (r0 : Str) (el : Tok)
     (hsec : expandMathSection T fuel buf tok.pos dispStops (some envName) [] st
       = .ok ({ out := mb.map (mathTokOf st), term := some e, buf := rest }, st))
-    (he1 : txtIs e "&" = false) (he2 : txtIs e "\\\\" = false)
+    (he1 : txtIs e "&" = false) (he2 : txtIs e "\\\\" = false) (he3 : (e.kind == Kind.par) = false)
     (hmb : ∀ t ∈ mb, BodyTok T t) (hel : mb.find? (isElemSrc T st.mathOperators) = some el)
     (hds : st.displayedSimple = false)
     (hrot : rotOf st (curSettings st) = some rot) (hls : settingsOf T (curSettings st) = some ls)
@@ -398,7 +401,7 @@ theorem expandDisplayMath_simple (T : PTables) (st : PState) (fuel : Nat) (buf :
       = .ok ((dispOut T r0 tok.pos el.pos (firstPos mb) (bodyTxt mb), rest),
              setRot st { rot with disp := rotL rot.disp }) := by
   have hl := displayLoop_simple T st fuel buf tok.pos envName
-    [mkAction tok.pos, mkFix .space tok.pos [' ', ' ']] mb e rest rot ls r0 el hsec he1 he2 hmb hel
+    [mkAction tok.pos, mkFix .space tok.pos [' ', ' ']] mb e rest rot ls r0 el hsec he1 he2 he3 hmb hel
     hrot hls hr
   rw [expandDisplayMath.eq_2]
   refine (M.bind_ok _ _ _ _ _ hl).trans ?_
@@ -724,8 +727,10 @@ theorem seq_disp (T : PTables) (envStop : Option Str) (ls : LangSettings) :
       have hmb : ∀ t ∈ mathToks b, BodyTok T t := mathToks_body T b (fun t ht => (hb t ht).bodyItem)
       have he1 : txtIs d2 "&" = false := by simp [txtIs, hd2.txt]
       have he2 : txtIs d2 "\\\\" = false := by simp [txtIs, hd2.txt]
+      have he3 : (d2.kind == Kind.par) = false := by
+        rcases hd2.kind with hk | hk | hk <;> simp [hk]
       have him := expandDisplayMath_simple T st f (b ++ d2 :: flat ps) d1 env.name (mathToks b) d2
-        (flat ps) rot ls _ el hsec he1 he2 hmb hel' hds hrot hls hr
+        (flat ps) rot ls _ el hsec he1 he2 he3 hmb hel' hds hrot hls hr
       rw [seq_open_step T (f + 2) d1 _ envStop out st env hd1 henv hequ, hrem]
       rw [M.bind_ok _ (fun r => expandSequence T (f + 2) r.2 envStop (out ++ r.1)) _ _ _ him]
       simp only []
@@ -785,7 +790,7 @@ theorem seq_disp (T : PTables) (envStop : Option Str) (ls : LangSettings) :
             obtain ⟨u, _, rfl⟩ := List.mem_map.mp ht
             exact isMathTok_mathTokOf st u)
       have him := expandDisplayMath_simple T st _ _ (mbTok p (PlainMacro.bodyTxt nt))
-        (PlainMacro.bodyTxt nt) (mathToks b) (endTok p') (flat ps) rot ls _ el hsec rfl rfl hmb hel'
+        (PlainMacro.bodyTxt nt) (mathToks b) (endTok p') (flat ps) rot ls _ el hsec rfl rfl rfl hmb hel'
         hds hrot hls hr
       rw [M.bind_ok _ (fun r => expandSequence T _ r.2 envStop (_ ++ r.1)) _ _ _ him]
       simp only []
